@@ -22,7 +22,13 @@ import (
 	"time"
 )
 
-const VerifDir = "/verif"
+// VerifDir is where known_findings.json, evidence/ and replays/ live: /verif, or a snapshot of it (VERIF_DIR).
+var VerifDir = func() string {
+	if d := os.Getenv("VERIF_DIR"); d != "" {
+		return d
+	}
+	return "/verif"
+}()
 
 // Violation is one counterexample found by a unit.
 type Violation struct {
